@@ -113,7 +113,7 @@ def havoc(eng, path, v, name):
             obj = make_value(eng, path, name, "classobj", "classobj:Class")
             path.fields(obj)["_Pregex__type"] = Unknown("inferred type of a class (loop-modified)")
             return obj
-        ty = path.fields(v).get("_Pregex__type")
+        ty = path.resolved(path.fields(v).get("_Pregex__type"))
         tname = getattr(ty, "name", None)
         if tname is None:
             raise Limitation(f"cannot havoc {name}: its inferred type is not determined")
